@@ -1,0 +1,21 @@
+//go:build verif
+// +build verif
+
+// The downloader's flush path (trieSync.commit: batch, Sync.Commit, the written count, batch.Write) for the verification
+// harness under /verif (C19, build tag "verif").  Nothing here is compiled into a normal build.
+
+package downloader
+
+import (
+	"github.com/youchainhq/go-youchain/core/types"
+	"github.com/youchainhq/go-youchain/trie"
+	"github.com/youchainhq/go-youchain/youdb"
+)
+
+// VerifNewTrieSyncOn is VerifNewTrieSync with a backing database, so that the flush path can be used as well.
+func VerifNewTrieSyncOn(sched *trie.Sync, db youdb.Database) *VerifTrieSync {
+	return &VerifTrieSync{s: newTrieSync(nil, types.KindCht, db, sched)}
+}
+
+// Commit is trieSync.commit(force).
+func (v *VerifTrieSync) Commit(force bool) error { return v.s.commit(force) }
